@@ -3,6 +3,7 @@ import Marwood.Heap.Check
 import Marwood.Vm.Verify
 import Marwood.Vm.ProcInv
 import Marwood.Vm.NoPanicCheck
+import Marwood.Vm.EnvInvCheck
 /-!
 Driver command `simgood`: the executable counterparts of the side conditions `Good` that the heap
 simulation theorems (Lemmas/SimMain.lean, T03.5 / T13.3) assume of every state along a run, evaluated on a
@@ -186,7 +187,9 @@ def noPanicCheck (syn : Bool) (s : St CHeap) : Option String :=
   -- the invariant form of the slot clause (evaluated on every real state; not yet proved preserved)
   if !closFitB s.heap then some "np-clos-fit" else
   if !syn && !childEnvB s.heap then some "np-child-env" else
-  if !frameEnvB s then some "np-frame-env" else none
+  if !frameEnvB s then some "np-frame-env" else
+  -- `EnvInv` (`Vm/EnvInvCheck.lean`; `Lemmas/EnvInv*.lean`): the slot clause as an invariant
+  stateEnvWhy syn s
 
 def isSynthetic (info : String) : Bool := (info.splitOn "+syn").length > 1
 
